@@ -30,6 +30,7 @@ from ngo.utils.ast import (
     AggAnalytics,
     AnnotatedPredicate,
     Predicate,
+    characteristic_variables,
     collect_ast,
     collect_binding_information_body,
     global_vars_inside_body,
@@ -167,7 +168,7 @@ class SumAggregator:
     ) -> Optional[tuple[AST, int, AnnotatedPredicate]]:
         tuple_vars: set[AST] = set()
         for term in tuple_terms:
-            tuple_vars.update(collect_ast(term, "Variable"))
+            tuple_vars.update(characteristic_variables(term))
         for lit in body:
             if is_conditional(lit):  # currently not supported, happens in soft constraints
                 return None
